@@ -370,6 +370,120 @@ def ob_late_requires_grad():
     return Ob("C12.joint.late_requires_grad", "B", body, clause="gradient = derivative of the reported value when gradients are enabled after a first evaluation", funcs=FUNCS)
 
 
+def ob_observer_then_backward(observer):
+    """evaluating or LOGGING the model between a parameter update and the next back-propagation must not change the gradient: after an
+    optimiser-like step (assign new values, gradients enabled), a logger (Logger on a sub-model / TreeLogger / a plain no_grad evaluation of
+    the joint, as MCMC and the convergence monitors do) runs, then the joint is evaluated and back-propagated: every leaf gets the gradient
+    of a freshly built graph at the same values"""
+    def body():
+        import contextlib
+        import io
+        from torchtree.core.logger import Logger, TreeLogger
+        joint, leaves = _late_grad_world(True)
+        joint()      # caches warm
+        new = [torch.tensor([0.45, 0.3, 3.4], dtype=torch.float64), torch.tensor([0.9], dtype=torch.float64)]
+        for p, v in zip(leaves, new):
+            p.tensor = v.clone()
+            p.requires_grad = True
+        sub_models = [m for m in joint._distributions.callables()] if hasattr(joint, "_distributions") else []
+        tree = next((m for m in sub_models if hasattr(m, "write_newick")), None)
+        sink = io.StringIO()
+        with contextlib.redirect_stdout(sink):
+            if observer == "logger":
+                lg = Logger([m for m in sub_models if hasattr(m, "id")][:1], 1)
+                lg.initialize()
+                lg.log(sample=1)
+                lg.log(RUN=True)
+            elif observer == "tree_logger":
+                lg = TreeLogger(tree, 1)
+                lg.initialize()
+                lg.log(sample=1)
+            else:
+                with torch.no_grad():
+                    joint()
+        v = joint()
+        if not v.requires_grad:
+            # the WHOLE value carries no graph (the cached no_grad evaluation is served): back-propagation raises - a loud failure, not a
+            # wrong gradient; the library's own loops notify before they need a gradient.  Only a silently incomplete gradient is a violation.
+            try:
+                v.sum().backward()
+            except RuntimeError:
+                return {"backend": "real autograd", "cases": 0, "trivial": True,
+                        "statement": "%s: the value served afterwards carries no graph and backward() raises (loud)" % observer}
+        else:
+            v.sum().backward()
+        ref, rleaves = _late_grad_world(True)
+        for p, val in zip(rleaves, new):
+            p.tensor = val.clone()
+            p.requires_grad = True
+        rv = ref()
+        rv.sum().backward()
+        bad = []
+        for p, q in zip(leaves, rleaves):
+            if p.grad is None:
+                bad.append("%s.grad is None" % p.id)
+            elif not torch.allclose(p.grad, q.grad, rtol=1e-10, atol=1e-12):
+                bad.append("%s.grad = %s, fresh graph gives %s" % (p.id, p.grad.tolist(), q.grad.tolist()))
+        if bad or not torch.allclose(v, rv):
+            raise Refuted("update -> %s -> evaluate + backward: " % observer + "; ".join(bad or ["value differs"]), witness={"observer": observer, "problems": bad},
+                          replay={"kind": "custom", "contract": "C12", "func": "replay_observer_then_backward", "args": {"observer": observer}}, confirmed=True)
+        return {"backend": "real autograd", "cases": len(leaves), "statement": "%s between an update and the backward pass does not change the gradient" % observer}
+    return Ob("C12.joint.observer_then_backward[%s]" % observer, "B", body,
+              clause="gradient = derivative of the reported value when the model was logged / evaluated without gradients in between", funcs=FUNCS)
+
+
+def replay_observer_then_backward(args):
+    try:
+        ob_observer_then_backward(args["observer"]).fn()
+    except Refuted as e:
+        return False, e.detail
+    return True, "held"
+
+
+def ob_linear_equal_knots():
+    """piecewise-linear coalescent with two EQUAL neighbouring population sizes (the usual starting point of an optimisation: all sizes
+    equal): the value switches to the flat-piece formula there; the gradient autograd reports must still be the derivative of the reported
+    value (central differences of the real function, which is smooth across the equality)"""
+    def body():
+        import torchtree.evolution.coalescent as co
+        t64 = lambda v: torch.tensor(v, dtype=torch.float64)
+        grid = t64([1.0, 2.0, 3.0, 4.0])
+        tips = [0.0, 0.0, 0.0, 0.0]
+        internal = [0.5, 1.5, 2.6]
+        nh = t64(tips + internal)
+
+        def value(th):
+            return co.PiecewiseLinearCoalescentGrid(th, grid).log_prob(nh).sum()
+        bad = []
+        n = 0
+        for thetas in ([3.0, 5.0, 5.0, 2.0, 4.0], [2.0, 2.0, 2.0, 2.0, 2.0]):
+            th = t64(thetas).requires_grad_(True)
+            v = value(th)
+            v.backward()
+            g = th.grad.detach().clone()
+            h = 1e-3     # large enough that log(Nb/Na)/(Nb-Na) does not suffer cancellation at theta +- h; central differences: O(h^2)
+            for i in range(len(thetas)):
+                e = torch.zeros(len(thetas), dtype=torch.float64)
+                e[i] = h
+                fd = float(value(t64(thetas) + e) - value(t64(thetas) - e)) / (2 * h)
+                n += 1
+                if abs(float(g[i]) - fd) > 2e-5 * max(1.0, abs(fd)):
+                    bad.append("thetas %s: d/d theta[%d] autograd %.6f, central difference of the reported value %.6f" % (thetas, i, float(g[i]), fd))
+        if bad:
+            raise Refuted("PiecewiseLinearCoalescentGrid with equal neighbouring population sizes: " + "; ".join(bad[:3]), witness={"problems": bad},
+                          replay={"kind": "custom", "contract": "C12", "func": "replay_linear_equal_knots", "args": {}}, confirmed=True)
+        return {"backend": "real autograd", "cases": n, "statement": "%d partial derivatives at equal knots agree with central differences" % n}
+    return Ob("C12.coalescent.linear.equal_knots", "B", body, clause="gradient = derivative of the reported value where neighbouring population sizes are equal", funcs=FUNCS)
+
+
+def replay_linear_equal_knots(args):
+    try:
+        ob_linear_equal_knots().fn()
+    except Refuted as e:
+        return False, e.detail
+    return True, "held"
+
+
 def replay_late_requires_grad(args):
     try:
         ob_late_requires_grad().fn()
@@ -384,6 +498,9 @@ def obligations(tier, seed):
     obs.append(ob_underflow_gradient(False))
     obs.append(ob_underflow_gradient(True))
     obs.append(ob_late_requires_grad())
+    obs.append(ob_linear_equal_knots())
+    for observer in ("logger", "tree_logger", "no_grad_evaluation"):
+        obs.append(ob_observer_then_backward(observer))
 
     def add(name, contract, factory, args, pick=None, **kw):
         kw.setdefault("max_paths", 20000)
